@@ -422,6 +422,51 @@ func streamBuiltins(o *Out, r *rand.Rand, n int, thorough bool) {
 			}
 		}
 	}
+	// decimal numeral strings through toFloat: the float64 strconv.ParseFloat gives, bit for bit (the sign of a negative zero included)
+	for _, s := range []string{"-0", "-00", "-000", "+0", "0", "00", "-0.0", "-0e0", "-0.", "1", "-1", "007", "-007", "1e3", "-1e-3", ".5", "-.5", "5.", "12345678901234567", "-12345678901234567",
+		"123456789012345678", "1234567890123456789", "9223372036854775807", "-9223372036854775808", "9223372036854775808", "0.1", "-0.1", "1e-320", "-1e-320", "4.9e-324", "1e400", "-1e400"} {
+		for _, form := range []string{"toFloat(s)", "toFloat([s][0])", "toString(toFloat(s))"} {
+			out := runScript(form, map[string]interface{}{"s": s}, coreEnv)
+			o.Sum.Evaluations++
+			o.Sum.Hist["numeral-string-toFloat"]++
+			want, perr := strconv.ParseFloat(s, 64)
+			if perr != nil {
+				want = 0 // out of range: the property speaks of the numerals strconv parses
+				if !strings.HasPrefix(form, "toString") && (out.panicked) {
+					o.Fail(Failure{Oracle: "no-panic", Key: "panic:toFloat", Input: form + " with s = " + strconv.Quote(s), Detail: fmt.Sprint(out.panicVal)})
+				}
+				continue
+			}
+			var ok bool
+			if strings.HasPrefix(form, "toString") {
+				ok = out.err == nil && out.val == fmt.Sprint(want)
+			} else {
+				f, isF := out.val.(float64)
+				ok = out.err == nil && isF && math.Float64bits(f) == math.Float64bits(want)
+			}
+			if out.panicked || !ok {
+				o.Fail(Failure{Oracle: "go-conversion", Key: "builtin:toFloat-numeral", Input: form + " with s = " + strconv.Quote(s),
+					Detail: fmt.Sprintf("strconv.ParseFloat gives %v (bits %#x, printed %q); the builtin gave %v (%T) err %v", want, math.Float64bits(want), fmt.Sprint(want), out.val, out.val, out.err)})
+			}
+		}
+	}
+	// every result of range is a list of its own: storing into one changes no other result, earlier or later, here or in another environment
+	for _, c := range []struct{ src, want string }{
+		{"a = range(4)\na[1] = 100\n[range(6), a]", "[[0 1 2 3 4 5] [0 100 2 3]]"},
+		{"a = range(5)\nb = range(5)\na[0] = 9\nb[4] = 8\n[a, b, range(5)]", "[[9 1 2 3 4] [0 1 2 3 8] [0 1 2 3 4]]"},
+		{"a = range(2, 6)\na[0] = 7\n[a, range(2, 6), range(6)]", "[[7 3 4 5] [2 3 4 5] [0 1 2 3 4 5]]"},
+		{"a = range(0, 10, 5)\na[1] = 7\na += 1\n[range(0, 10, 5), range(3)]", "[[0 5] [0 1 2]]"},
+		{"sort = import(\"sort\")\na = range(4)\na[0] = 50\nsort.Slice(a, func(i, j) { return a[i] < a[j] })\n[a, range(4)]", "[[1 2 3 50] [0 1 2 3]]"},
+	} {
+		first := runScript(c.src, nil, coreEnv)
+		again := runScript("[range(6), range(4), range(1)]", nil, coreEnv)
+		o.Sum.Evaluations++
+		o.Sum.Hist["range-results-independent"]++
+		if first.panicked || first.err != nil || fmt.Sprint(first.val) != c.want || fmt.Sprint(again.val) != "[[0 1 2 3 4 5] [0 1 2 3] [0]]" {
+			o.Fail(Failure{Oracle: "range-progression", Key: "range-shared-result", Input: c.src + "\n--- then, in a fresh environment ---\n[range(6), range(4), range(1)]",
+				Detail: fmt.Sprintf("expected %s and then [[0 1 2 3 4 5] [0 1 2 3] [0]]; got %v (err %v) and then %v", c.want, first.val, first.err, again.val)})
+		}
+	}
 	// the same builtins on values only a host can supply: typed nil pointers whose types implement error / fmt.Stringer, other
 	// Stringers and errors, sized numbers, byte slices, structs - against fmt.Sprint / reflect, never a panic or run-time error
 	var nilURL *url.URL
